@@ -61,16 +61,17 @@ def part_auth(ctx: Ctx, out: Outcome, rng: random.Random) -> dict:
     items: list[dict] = []
     # attack schedules: what TLC finds without the in-lock re-check; the real code re-reads after acquiring, so a "reread" token
     # is inserted after every acquire - correct code then refuses to follow the rest (no second fetch), defective code follows it
-    for cfg, keyed in (("AuthCache_norecheck.cfg", True), ("AuthCache_norecheck1.cfg", False)):
+    for cfg, keyed in (("AuthCache_norecheck.cfg", True), ("AuthCache_norecheck1.cfg", False),
+                       ("AuthCache_writeoutside.cfg", True), ("AuthCache_writeoutside1.cfg", False)):
         res = tlc.require_ok(tlc.run_tlc("AuthCache", cfg, timeout=600), cfg)
-        if "FetchOnce" not in res.violated:
-            raise tlc.TLCFailure("%s: the design without re-check must violate FetchOnce in the model" % cfg)
+        if not res.violated:
+            raise tlc.TLCFailure("%s: the defective design must violate an invariant in the model" % cfg)
         beh = sched.parse_counterexample(res.counterexample)
         steps, calls, _ = auth_sched.steps_of(beh)
         steps2 = []
         for s in steps:
             steps2.append(s)
-            if s[1] == "acquire":
+            if s[1] == "acquire" and "norecheck" in cfg:
                 steps2.append((s[0], "reread"))
         items.append({"steps": steps2, "calls": calls, "R": 2, "keyed": keyed, "expected": [], "hasExpected": False, "origin": "attack:" + cfg})
     n_sim = 60 if ctx.quick else 600
@@ -118,7 +119,7 @@ def part_auth(ctx: Ctx, out: Outcome, rng: random.Random) -> dict:
     if sim_div:
         out.notes.append("%d simulated auth schedule(s) diverged (e.g. %s)" % (sim_div, next(r["diverged"] for r in forced if r["diverged"] and r["origin"].startswith("simulate"))))
     cov.update(design_states=design.distinct, design_generated=design.generated, forced_schedules=len(forced),
-               forced_followed_exactly=sum(1 for r in forced if not r["diverged"]), attack_schedules=2, free_runs=len(free),
+               forced_followed_exactly=sum(1 for r in forced if not r["diverged"]), attack_schedules=4, free_runs=len(free),
                fetches_observed=sum(len(r["fetches"]) for r in runs), simulated_diverged=sim_div, judged=len(runs))
     cov["sample"] = {"origin": forced[-1]["origin"], "steps": items[-1]["steps"][:30], "fetches": forced[-1]["fetches"]}
     return cov
